@@ -1,24 +1,29 @@
 (* Executable model of the cao-lang virtual machine:
-     cao-lang/src/vm.rs (Vm::run, _run, run_function, payload_to_error),
-     cao-lang/src/vm/instr_execution.rs, vm/runtime.rs (object constructors, no GC),
-     vm/runtime/cao_lang_{object,table,string,function}.rs, value.rs, traits.rs, procedures.rs.
-   Hand transcription, tied to the code by the "VM" correspondence check (VmCheck.v, harness/src/vmrun.rs).
+     cao-lang/src/vm.rs (Vm::run, _run, run_function, payload_to_error, clear),
+     cao-lang/src/vm/instr_execution.rs, vm/runtime.rs (object constructors, clear; no GC),
+     vm/runtime/cao_lang_{object,table,string,function}.rs, value.rs, traits.rs, procedures.rs,
+     stdlib.rs (native_minmax, native_sorted, native_to_array).
+   Hand transcription of /repo HEAD; tied to the code by the correspondence checks VM / C03 / C17 / C18
+   (VmCheck.v, C03Check.v, C17Check.v, C18Check.v; harness/src/vmrun.rs, vmgen.rs, c17.rs). Comments of the form
+   "(the pinned tree ..., A-n)" mark behaviour that was different at the pinned commit and was repaired since.
 
    Conventions (DESIGN.md section 3):
    * The program that is run is the crate's own compile output (bytecode, data, labels, variables, trace keys);
      every instruction decodes its opcode and operands inline at the instruction pointer, as the Rust code does.
-   * The heap never frees: an address is an index into [st_heap]. This is the behaviour of the real VM exactly
-     when no collection frees a still-reachable object (property C02); the harness gives the VM a large memory
-     limit so that no collection runs.
+   * The heap never frees during a run: an address is an index into [st_heap]. This is the behaviour of the real
+     VM exactly when no collection frees a still-reachable object (property C02); the harness gives the VM a
+     1 GiB memory limit so that no collection runs. `clear` empties the heap.
    * Floating point is abstract here ([fops]); VmFloat.v instantiates it with Flocq binary64. The theorems of
      VmProofs.v hold for every instance, so they do not depend on Flocq's axioms.
-   * A CaoLangTable is the pair (map, keys) because `pop` lets them diverge (A-10). The map is an association
-     list; a key matches when the stored key is `==` and hashes alike (bit-equal reals), 32-bit FNV collisions of
-     unequal keys are not modelled, nor are table keys mutated after insertion.
+   * A CaoLangTable is the pair (map, keys) as in the code (`insert` of a key that is in the map but not in `keys`
+     would let them diverge). The map is an association list; a key matches when the stored key is `==` and
+     hashes alike (bit-equal reals); 32-bit FNV collisions of unequal keys are not modelled, nor are table keys
+     mutated after insertion.
    * Rust panics are [APanic]; a bad opcode byte (transmute of an invalid discriminant), a dangling address or a
      comparison of a stack pointer with a heap pointer are [AUB]; unbounded native recursion of ==/hash on cyclic
-     tables is [ACrash]; exhausted inner fuel is [ADiverge]; natives of the stdlib that are not modelled return
-     [AUnmodelled]. *)
+     tables is [ACrash]; exhausted inner fuel is [ADiverge]; [AUnmodelled] is the cut-off of re-entry in the flat
+     semantics (run_flat).
+   * The natives are a fixed menu that the harness registers under the same names, plus the four stdlib natives. *)
 From Coq Require Import NArith ZArith List Lia Bool.
 From Cao Require Import ListUtil Bits Stacks.
 Import ListNotations.
